@@ -416,14 +416,18 @@ func windingOrderIsCorrect(ring [][2]float64, shouldBeClockwise bool) bool {
 	return wo.IsClockwise() && shouldBeClockwise || wo.IsCounterClockwise() && !shouldBeClockwise || wo.IsColinear()
 }
 
-// TODO: rewrite by using intgeoms for as long as possible
-func isHitMultiple(hitMultiple map[intgeom.Point][]int, vertex [2]float64, ringIdx int) bool {
-	intVertex := intgeom.FromGeomPoint(vertex)
-	return slices.Contains(hitMultiple[intVertex], ringIdx) || // exact match
-		slices.Contains(hitMultiple[intgeom.Point{intVertex[xAx] + 1, intVertex[yAx]}], ringIdx) || // fuzzy search
-		slices.Contains(hitMultiple[intgeom.Point{intVertex[xAx] - 1, intVertex[yAx]}], ringIdx) ||
-		slices.Contains(hitMultiple[intgeom.Point{intVertex[xAx], intVertex[yAx] + 1}], ringIdx) ||
-		slices.Contains(hitMultiple[intgeom.Point{intVertex[xAx], intVertex[yAx] - 1}], ringIdx)
+// verticesHitMultiple returns the vertices that are hit more than once by the ring with the given index.
+// The vertices of a (new) ring are the float representations of the (int) points in the index.
+// Converting such a float back to an int is not exact for larger coords (it can be off by more than 1),
+// so the floats are used to look them up, not the ints.
+func verticesHitMultiple(hitMultiple map[intgeom.Point][]int, ringIdx int) map[[2]float64]struct{} {
+	vertices := make(map[[2]float64]struct{}, len(hitMultiple))
+	for intVertex, ringIdxs := range hitMultiple {
+		if slices.Contains(ringIdxs, ringIdx) {
+			vertices[intVertex.ToGeomPoint()] = struct{}{}
+		}
+	}
+	return vertices
 }
 
 // split ring into multiple rings at any point where the ring goes through the point more than once
@@ -435,8 +439,9 @@ func splitRing(ring [][2]float64, isOuter bool, hitMultiple map[intgeom.Point][]
 	stack.Set(partialRingIdx, [][2]float64{})
 	completeRings := make(map[int][][2]float64)
 	checkRing := append(ring, ring[0])
+	hitMultipleVertices := verticesHitMultiple(hitMultiple, ringIdx)
 	for vertexIdx, vertex := range checkRing {
-		if vertexIdx == 0 || !isHitMultiple(hitMultiple, vertex, ringIdx) {
+		if _, isHitMultiple := hitMultipleVertices[vertex]; vertexIdx == 0 || !isHitMultiple {
 			if partialRing, inited := stack.Get(partialRingIdx); !inited {
 				stack.Set(partialRingIdx, make([][2]float64, 0, len(checkRing)))
 			} else {
